@@ -20,9 +20,27 @@ RULE = ("strings over {/ . a} exhaustively to length 8 (quick) / 10 (thorough) p
         ">= 2 characters (distinct by content) or the tree has >= 1 directory to climb")
 
 
+GATES = [  # every place a name enters the index: (file, function, the exact call, what must follow a rejection)
+    ("alpenhorn/cli/file/create.py", "create", "invalid_import_path(name)", "raise click.ClickException"),
+    ("alpenhorn/cli/acq/create.py", "create", "invalid_import_path(name)", "raise click.ClickException"),
+    ("alpenhorn/daemon/update.py", "UpdateableNode.update_import", "util.invalid_import_path(req.path)", "auto_import.import_request_done(req, 'invalid')"),
+    ("alpenhorn/daemon/auto_import.py", "_import_file", "invalid_import_path(str(acq_name))", "import_request_done(req, 'bad_acq')\n    return"),
+]
+
+
 def gen(ctx):
+    import ast
+
     tree = T.parse(core.REPO / "alpenhorn/common/util.py")
     body = T.reject_clauses(tree, "invalid_import_path", "name")
+    for path, fn, call, after in GATES:
+        f = T.find_func(T.parse(core.REPO / path), fn)
+        calls = [ast.unparse(x) for x in ast.walk(f) if isinstance(x, ast.Call) and ast.unparse(x.func).endswith("invalid_import_path")]
+        if calls != [call]:
+            raise T.Untranslatable(f"UNTRANSLATABLE: {path}:{fn} vets names as {calls}, expected exactly {call}")
+        guards = [x for x in ast.walk(f) if isinstance(x, ast.If) and ast.unparse(x.test) == "rejection_reason"]
+        if len(guards) != 1 or after not in ast.unparse(guards[0]):
+            raise T.Untranslatable(f"UNTRANSLATABLE: {path}:{fn} no longer refuses a rejected name with `{after}`")
     return {"Gen_util": T.HEADER + "Open Scope N_scope.\n" + body + "\n"}
 
 
@@ -239,8 +257,41 @@ def explore_histories(ctx, n):
             ctx.fail("C06:outside-roots", f"the file outside every node root is gone: {final['outside']}", {"family": "history", "spec": spec, "ops": [list(o) for o in ops]})
 
 
+def explore_gates(ctx, n):
+    """the same strings offered to the index through its gates: `file create`, `acq create`, import requests"""
+    from vf.harness import cliworld as cw
+    from vf.harness import world as w
+    import hashlib
+
+    base = ctx.tmp() / "gates"
+    base.mkdir(parents=True, exist_ok=True)
+    pool = [s for s in strings(ctx, 5, 0)][:4000]
+    for k in range(n):
+        s = ctx.rng.choice(pool) if ctx.rng.random() < 0.8 else ctx.rng.choice(["a", "a/b", "x/../y", "../../escape", "a//b", "a/./b", "/abs", "a/", ""])
+        w.fresh_db()
+        g = w.mkgroup("g")
+        node = w.mknode(base, "n", g)
+        w.mkacq("acq")
+        md5 = hashlib.md5(b"x").hexdigest()
+        rp = {"family": "gates", "name": s}
+        code, out, exc = cw.invoke("file create", [f"--md5={md5}", "--size=1", "--", s, "acq"])
+        made = w.ArchiveFile.select().where(w.ArchiveFile.name == s).count() > 0
+        if exc is not None and made:
+            ctx.fail("C06:gate", f"file create {s!r} raised {exc!r} after registering the name", rp)
+        if made != canonical(s):
+            ctx.fail("C06:gate", f"`file create` {'accepted' if made else 'rejected'} the name {s!r} (canonical: {canonical(s)})", rp)
+        code, out, exc = cw.invoke("acq create", ["--", s])
+        made = w.ArchiveAcq.select().where(w.ArchiveAcq.name == s).count() > 0
+        if made != canonical(s):
+            ctx.fail("C06:gate", f"`acq create` {'accepted' if made else 'rejected'} the name {s!r} (canonical: {canonical(s)})", rp)
+        ctx.count("gate")
+        if not canonical(s):
+            ctx.distinct_add(("gate", s))
+
+
 def explore(ctx):
     explore_strings(ctx, 8 if ctx.quick() else 10, 3000 if ctx.quick() else 40000)
+    explore_gates(ctx, 150 if ctx.quick() else 3000)
     explore_rmdir(ctx)
     explore_histories(ctx, 25 if ctx.quick() else 1500)
 
